@@ -16,7 +16,7 @@ pub open spec fn kopen(i: int, opath: bool, odir: bool) -> KRes {
     }
 }
 pub open spec fn pres(cur: int, comps: Seq<Comp>, n: nat, opath: bool, onf: bool, odir: bool, nosym: bool) -> KRes
-    decreases 128 - n, comps.len()
+    decreases 40 - n, comps.len()
 {
     if comps.len() == 0 {
         KRes::Done(cur)
@@ -38,7 +38,7 @@ pub open spec fn pres(cur: int, comps: Seq<Comp>, n: nat, opath: bool, onf: bool
                         pres(nx, rest, n, opath, onf, odir, nosym)
                     } else if nosym {
                         KRes::Fail(libc::ELOOP as int)
-                    } else if n + 1 >= 128 {
+                    } else if n >= 40 {       // fs/namei.c: total_link_count++ >= MAXSYMLINKS (40)
                         KRes::Fail(libc::ELOOP as int)
                     } else {
                         let t = fs_target(nx);
@@ -48,6 +48,10 @@ pub open spec fn pres(cur: int, comps: Seq<Comp>, n: nat, opath: bool, onf: bool
             }
         }
     }
+}
+/// RESOLVE_BENEATH refuses an absolute path outright (EXDEV) -- openat2(2)
+pub open spec fn pres_top(path: Seq<u8>, opath: bool, onf: bool, odir: bool, nosym: bool) -> KRes {
+    if is_abs(path) { KRes::Fail(libc::EXDEV as int) } else { pres(fs_root(), split(path), 0, opath, onf, odir, nosym) }
 }
 pub open spec fn pres_ok(res: Result<OwnedFd, Error>, goal: KRes) -> bool {
     match res {
